@@ -181,6 +181,26 @@ def run_tlc(module, cfg=None, env=None, workers=1, simulate=None, depth=None, se
     res.wall = time.time() - t0
     res.rc = p.returncode
     out = p.stdout.splitlines()
+    # TLC's pretty-printer wraps long PrintT tuples over several lines: re-join them first
+    joined, acc = [], None
+    for ln in out:
+        st = ln.strip()
+        if acc is not None:
+            acc += " " + st
+            if st.endswith(">>"):
+                joined.append(acc)
+                acc = None
+            elif len(acc) > 2000000:
+                joined.append(acc)
+                acc = None
+            continue
+        if st.startswith("<<") and not st.endswith(">>") and (st.startswith("<<\"") or st.startswith("<< \"")):
+            acc = st
+            continue
+        joined.append(ln)
+    if acc is not None:
+        joined.append(acc)
+    out = joined
     for ln in out:
         s = ln.strip()
         if s.startswith("<<"):
